@@ -120,7 +120,15 @@ pub fn build_curve(v: &Value) -> arrival::Curve {
                         d(u(&v["of"]["T"])),
                         d(u(&v["of"]["J"])),
                     )),
-                    "acp" | "acp_from" => arrival::Curve::from(&build_acp(&v["of"])),
+                    // by reference or by value (two `From` impls), chosen by the parity of the horizon
+                    "acp" | "acp_from" => {
+                        let acp = build_acp(&v["of"]);
+                        if u(&v["of"]["h"]) % 2 == 0 {
+                            arrival::Curve::from(&acp)
+                        } else {
+                            arrival::Curve::from(acp)
+                        }
+                    }
                     k => panic!("harness: cfrom/into of {}", k),
                 },
                 h => panic!("harness: cfrom how {}", h),
@@ -224,6 +232,29 @@ pub fn build_arrival(v: &Value) -> AB {
     }
 }
 
+/// A cost model that supplies only the required trait method; everything else is the trait's
+/// default implementation (which must agree with the wrapped model's own overrides).
+pub struct MinimalCost(pub CM);
+impl JobCostModel for MinimalCost {
+    fn job_cost_iter<'a>(&'a self) -> Box<dyn Iterator<Item = Service> + 'a> {
+        self.0.job_cost_iter()
+    }
+}
+
+/// A request bound that supplies only the required trait methods (see [MinimalCost]).
+pub struct MinimalDemand(pub RB);
+impl RequestBound for MinimalDemand {
+    fn least_wcet_in_interval(&self, delta: Duration) -> Service {
+        self.0.least_wcet_in_interval(delta)
+    }
+    fn steps_iter<'a>(&'a self) -> Box<dyn Iterator<Item = Duration> + 'a> {
+        self.0.steps_iter()
+    }
+    fn job_cost_iter<'a>(&'a self, delta: Duration) -> Box<dyn Iterator<Item = Service> + 'a> {
+        self.0.job_cost_iter(delta)
+    }
+}
+
 pub fn build_wcurve(v: &Value) -> wcet::Curve {
     match kind(v) {
         "wcurve" => wcet::Curve::new(us(&v["w"]).into_iter().map(s).collect()),
@@ -240,13 +271,16 @@ pub fn build_wcurve(v: &Value) -> wcet::Curve {
 
 pub fn build_cost(v: &Value) -> CM {
     match kind(v) {
-        "scalar" => Rc::new(wcet::Scalar::new(s(u(&v["c"])))),
+        // two constructors of the same model, chosen by the parity of the bound
+        "scalar" if u(&v["c"]) % 2 == 0 => Rc::new(wcet::Scalar::new(s(u(&v["c"])))),
+        "scalar" => Rc::new(wcet::Scalar::from(s(u(&v["c"])))),
         "multiframe" => Rc::new(wcet::Multiframe::new(us(&v["cs"]).into_iter().map(s).collect())),
         "wcurve" | "wciter" | "wctrace" | "wcext" => Rc::new(build_wcurve(v)),
         "wxcurve" => Rc::new(wcet::ExtrapolatingCurve::new(build_wcurve(&v["of"]))),
         "wrap" => {
             let inner = build_cost(&v["of"]);
             match v["w"].as_str().unwrap() {
+                "min" => Rc::new(MinimalCost(inner)),
                 "box" => Rc::new(Box::new(inner)),
                 "rc" => Rc::new(Rc::new(inner)),
                 "ref" => {
@@ -290,6 +324,7 @@ pub fn build_demand(v: &Value) -> RB {
         "wrap" => {
             let inner = build_demand(&v["of"]);
             match v["w"].as_str().unwrap() {
+                "min" => Rc::new(MinimalDemand(inner)),
                 "box" => Rc::new(Box::new(inner)),
                 "rc" => Rc::new(Rc::new(inner)),
                 "ref" => {
